@@ -14,7 +14,7 @@ CONSTANTS Dims,        \* set of <<ntaxa, nchars, nclasses>>: all matrices of th
 VARIABLE c
 
 \* values for the .cfg files (tuples cannot be written there)
-DimsQuick == {<<1, 1, 3>>, <<1, 2, 3>>, <<2, 1, 3>>, <<2, 2, 2>>}
+DimsQuick == {<<1, 1, 3>>, <<1, 2, 3>>, <<2, 1, 3>>, <<2, 2, 2>>, <<1, 3, 2>>}
 DimsWideQuick == {<<1, 1, 6>>, <<1, 2, 4>>, <<2, 1, 4>>, <<2, 2, 3>>}
 DimsThorough == {<<1, 1, 6>>, <<1, 2, 4>>, <<2, 1, 4>>, <<1, 3, 3>>, <<3, 1, 3>>, <<2, 2, 3>>, <<2, 3, 2>>, <<3, 2, 2>>}
 DimsWideThorough == {<<1, 1, 6>>, <<1, 2, 5>>, <<2, 1, 5>>, <<1, 3, 4>>, <<3, 1, 4>>, <<2, 2, 4>>, <<2, 3, 2>>, <<3, 2, 2>>, <<3, 3, 2>>}
